@@ -115,7 +115,9 @@ def bnaf(ctx):
                         def __getitem__(self, idx):
                             class S:
                                 def set(self_, v):
-                                    ok = isinstance(idx, tuple) and len(idx) == 3 and idx[0] == slice(None) and idx[1] is idx[2] and isinstance(idx[1], Arange)
+                                    # the diagonal of every block: [:, d, d] with d = arange(block_dim) (or the equal pair diag_indices(block_dim))
+                                    ok = (isinstance(idx, tuple) and len(idx) == 3 and idx[0] == slice(None) and isinstance(idx[1], Arange) and isinstance(idx[2], Arange)
+                                          and (idx[1] is idx[2] or (idx[1].n is idx[2].n) or (isinstance(idx[1].n, int) and idx[1].n == idx[2].n)))
                                     if not ok:
                                         raise Untranslatable(f"unexpected update pattern {idx!r} of the log-Jacobian template")
                                     if not (isinstance(me.value, float) and me.value == float("-inf")):
@@ -130,6 +132,7 @@ def bnaf(ctx):
 
             it.lib.overrides["jax.numpy.full"] = lambda shape, value, dtype=None: Full3(shape, value)
             it.lib.overrides["jax.numpy.arange"] = lambda n_: Arange(n_)
+            it.lib.overrides["jax.numpy.diag_indices"] = lambda n_, ndim=2: tuple(Arange(n_) for _ in range(ndim))
             it.lib.overrides["jax.numpy.inf"] = float("inf")
             it.lib.overrides["equinox.filter_vmap"] = lambda f, **k: f
             it.global_overrides[Q] = {"logmatmulexp": lambda a, b: BTV(LME(a.e, b.e))}
